@@ -398,7 +398,9 @@ func (o *out) expr(e *Expr) {
 		}
 		// no comment directly before a regex: a comment line followed by a line starting with '/' is
 		// lexed as one comment block (lexComment continues on any '/')
-		o.emit(tk{s: encRegex(e.V), cls: "lit-regex", ncb: true})
+		// (K10, repaired: with the exclusion off a comment may precede a regex wherever the lexer expects an operand;
+		// directly after =~ !~ = the previous token forbids it)
+		o.emit(tk{s: encRegex(e.V), cls: "lit-regex", ncb: !off(classK10)})
 	case "star":
 		o.emit(tk{s: "*", cls: "lit-star"})
 	case "id":
@@ -462,6 +464,8 @@ type eg struct {
 	noRegex  bool
 	nonzero  bool              // no literal has the zero value of its type ("", 0, 0.0, 0s)
 	badVars  map[string]string // var name -> known defect class: not referenced inside lambdas
+	emptyRe  map[string]bool   // regex vars holding the empty regex (L2)
+	inConcat int               // > 0: the literal is a piece of a constant string concatenation (L1)
 	count    func(class string)
 }
 
@@ -569,6 +573,12 @@ func (g *eg) durLit() *Expr {
 }
 func (g *eg) strLit() *Expr {
 	v := rapid.SampledFrom(strPool).Draw(g.t, "str")
+	if g.nonzero && g.inConcat > 0 && strings.HasSuffix(v, `\`) {
+		if g.count != nil {
+			g.count(classL1)
+		}
+		v += "x"
+	}
 	if g.nonzero && strings.HasSuffix(v, `\`) && !off(classK5) {
 		if g.count != nil {
 			g.count(classK5)
@@ -678,7 +688,13 @@ func (g *eg) str0(d int) *Expr {
 
 func (g *eg) regexOrVar(allowEmpty bool) *Expr {
 	if v := g.pickVar("re"); v != nil {
-		return v
+		if !allowEmpty && g.nonzero && g.emptyRe[v.V] {
+			if g.count != nil {
+				g.count(classL2)
+			}
+		} else {
+			return v
+		}
 	}
 	return g.regex(allowEmpty)
 }
